@@ -88,7 +88,8 @@ def run_bounded(rep, name, tier, seed, budget_quick=25.0, budget_thorough=480.0)
     budget = budget_quick if tier == 'quick' else budget_thorough
     r = bounded.run(name, 'oracle_' + name, cases_fn(tier, seed),
                     classify_name='classify_' + name if hasattr(oracles, 'classify_' + name) else None,
-                    budget_s=budget, rule=getattr(oracles, 'RULE_' + name, ''))
+                    budget_s=budget, rule=getattr(oracles, 'RULE_' + name, ''),
+                    chunk=getattr(oracles, 'CHUNK_' + name, 200))
     r['label'] = 'BOUNDED stand-in (not proof): oracle = executable transcription of the property statement'
     rep.bounded.append(r)
     return r
@@ -134,3 +135,43 @@ def finish(rep, level='proof'):
         print('note: undecided obligations are not alarms; exit 0 (set VERIF_STRICT=1 for exit 2)')
         return 0
     return code
+
+
+def model_value(ob, name):
+    """concrete value of an input variable in the counter-model of a failed obligation"""
+    m = ((ob.witness or {}).get('model') or (ob.detail or {}).get('model') or {})
+    v = m.get(name)
+    if isinstance(v, dict):
+        return v.get('str', v.get('int'))
+    return None
+
+
+def attach_replay(rep, prop, make_candidates, budget_s=5.0):
+    """for every failed SMT obligation: turn the counter-model into candidate inputs and replay them on the real
+    code with the native oracle (DESIGN 3.8)"""
+    from pyvc import oracles
+    orc = getattr(oracles, 'oracle_' + prop, None)
+    if orc is None:
+        return
+    for ob in rep.obls:
+        if ob.status != FAILED or ob.kind != 'smt':
+            continue
+        if ob.witness and ob.witness.get('reproduced'):
+            continue
+        t0 = time.time()
+        found = None
+        tried = 0
+        for c in make_candidates(ob):
+            if time.time() - t0 > budget_s:
+                break
+            tried += 1
+            try:
+                r = orc(c)
+            except Exception:
+                continue
+            if r is not None:
+                found = {'input': c, 'failure': r, 'reproduced': True}
+                break
+        w = dict(ob.witness or {})
+        w.update(found or {'reproduced': False, 'candidates_tried': tried})
+        ob.witness = w
